@@ -176,6 +176,10 @@ func (pk PublicKey) Verify(sig Signature, m []byte) bool {
 	if len(sig) != SignatureLen {
 		return false
 	}
+	// public keys are 32 byte x-only encodings
+	if len(pk) != 32 {
+		return false
+	}
 
 	P, err := curve.Secp256k1{}.LiftX(pk)
 	if err != nil {
